@@ -636,6 +636,13 @@ def run_r11(ctx, rule):
                     examined[("c", 0)] = sb
                 elif ln == DRp + "request_byte_at_offset" and len(look[3]) > 1:
                     examined[strip_bb(look[3][1])] = sb
+            # an index found by scanning the buffered slice itself (`buf()[..k].iter().rposition(..)`) names a byte that is there
+            if X is not None and c == 1:
+                from . import scanidx as SI
+                sc = SI.scanned_slice(fn, X)
+                if sc is not None and mentions(sc[0], lambda y: y[0] == "call" and norm(y[2]).endswith("DeferredReader::buf")):
+                    rule.ok("%s advances by an index found in the buffered slice + 1" % short(norm(fid)), fn.loc(bb))
+                    continue
             missing = []
             for j in range(c):
                 if X is None:
